@@ -9,6 +9,13 @@ binding   (1) code -> spec: every real execution (fault-free record run, every c
           (2) spec -> code: every terminal state of TLC's state graph (crash point / torn class / reader position)
               is re-executed on the real library; plus the generic enumeration "fault at each of the N recorded
               mutating steps", so the verdict never depends on the code matching the model.
+observers three kinds, all judged the same way: a raw reader (open / read of the target at any two positions of the writer), a
+          signac SESSION in another process that reads the target through the API (Project.open_job(id=...), len, iteration,
+          find_jobs / job.document() / project.document()) between any two writer steps, and - after every crash / torn write -
+          a later read-only session followed (cache) by a session that calls update_cache(). A session must not raise, must
+          leave every target old-or-new and at most the temp file as litter; its own fs steps are part of the validated trace:
+          the specification's reader only opens and reads the target, so a reader that touches the temp name is rejected, and
+          the named broken reader protocol "recover" is required to violate OldOrNew in TLC.
 verdict   always from raw observation (json.load / gzip+json of the target, directory listing) judged by the
           property's stated post-conditions; a different-but-atomic protocol is SPEC-DRIFT.
 
@@ -241,6 +248,65 @@ class Scen:
         REGISTRY[self.key] = self
 
 
+def target_states(box, scen):
+    """raw reading of every target: 'old' | 'new' | 'absent' | 'empty' | 'torn' | 'third' (absent = old if there was no file)"""
+    out = {}
+    for rel, old, new, kind in scen.kw.get("targets", ()):
+        fn = os.path.join(box, rel)
+        try:
+            with open(fn, "rb") as f:
+                b = f.read()
+        except FileNotFoundError:
+            b = None
+        got = parse_target(b, kind)
+        if got[0] == "ok":
+            out[rel] = "new" if got[1] == new else ("old" if old is not None and got[1] == old else "third")
+        elif got[0] == "absent":
+            out[rel] = "old" if old is None else "absent"
+        else:
+            out[rel] = got[0]
+    return out
+
+
+def run_session(box, scen, which="session"):
+    """A signac SESSION (fresh Project object, in its own process) that reads the target through the library's API.
+    Its file-system steps are recorded: a reader is expected to open the target for reading and nothing else."""
+    import logging
+    logging.disable(logging.CRITICAL)
+    fn = scen.kw.get(which)
+    if fn is None:
+        return None
+    roles = {to_role(t[0]) for t in scen.kw.get("targets", ())}
+    sh = Shim(box, record_reads=True)
+    res, detail, value = "ok", "", None
+    sh.install()
+    try:
+        value = fn(box)
+    except BaseException as e:  # noqa
+        res, detail = classify_exc(e) if isinstance(e, OSError) else type(e).__name__, repr(e)[:300]
+    finally:
+        sh.uninstall()
+    evs = []
+    for e in sh.events:
+        r = [to_role(x) for x in e["paths"]]
+        if e["mut"] or (e["op"].startswith("open:r") and r and r[0] is not None and (r[0] in roles or r[0][-1].endswith("~") or r[0][-1].startswith("t"))):
+            evs.append(e)
+    try:
+        vtxt = canon(value)
+    except Exception:  # noqa
+        vtxt = repr(value)
+    return {"res": res, "detail": detail, "events": evs, "value": vtxt if len(vtxt) < 2000 else hashlib.md5(vtxt.encode()).hexdigest(),
+            "targets_after": target_states(box, scen)}
+
+
+def _session_child(box, scen, which):
+    if isinstance(scen, str):
+        scen = REGISTRY[scen]
+    os.chdir(box)
+    apply_mutation()
+    return run_session(box, scen, which)
+
+
 def _child_exec(box, scen, mode):
     import tempfile
     import logging
@@ -279,6 +345,42 @@ def _child_exec(box, scen, mode):
               rfaults={int(k): v for k, v in (mode.get("rfaults") or {}).items()})
     if reader:
         sh.on_step = lambda ev: reader_step(ev["k"] - 1, sh.orig["builtins.open"]) if ev["mut"] else None
+    sess_at = mode.get("session_at")
+    sess = {"out": None, "done": False}
+
+    def session_now():
+        """another PROCESS runs a signac session now, while the writer stands between two of its steps"""
+        sess["done"] = True
+        r, w = os.pipe()
+        pid = os.fork()
+        if pid == 0:
+            code = 0
+            try:
+                os.close(r)
+                sh.uninstall()  # this copy of the process is the reader: it gets the real functions back
+                data = json.dumps(run_session(box, scen), default=str).encode()
+                view = memoryview(data)
+                while view:
+                    n = os.write(w, view[:65536])
+                    view = view[n:]
+            except BaseException:  # noqa
+                traceback.print_exc()
+                code = 3
+            finally:
+                os._exit(code)
+        sh.orig["os.close"](w)
+        chunks = []
+        while True:
+            c = sh.orig["os.read"](r, 1 << 16) if sh._installed else os.read(r, 1 << 16)
+            if not c:
+                break
+            chunks.append(c)
+        (sh.orig["os.close"] if sh._installed else os.close)(r)
+        os.waitpid(pid, 0)
+        sess["out"] = json.loads(b"".join(chunks)) if chunks else {"res": "MACHINERY", "detail": "reader process died", "events": [], "targets_after": {}}
+
+    if sess_at is not None:
+        sh.on_step = lambda ev: session_now() if (ev["mut"] and not sess["done"] and ev["k"] - 1 >= sess_at) else None
     detail = ""
     sh.install()
     try:
@@ -291,9 +393,11 @@ def _child_exec(box, scen, mode):
         sh.uninstall()
     if reader:
         reader_step(10 ** 9, open)
+    if sess_at is not None and not sess["done"]:
+        session_now()
     evs = sh.events if mode.get("reads") else [e for e in sh.events if e["mut"] or (e["res"] or "").startswith("fail:")]
     return {"events": evs, "res": res, "detail": detail, "n": sh.k, "pre_paths": pre_paths, "pre_snap": pre_snap,
-            "reader": {"absent": rstate["val"] is None, "hex": rstate["val"]} if reader else None}
+            "reader": {"absent": rstate["val"] is None, "hex": rstate["val"]} if reader else None, "session": sess["out"]}
 
 
 def _child_observe(box):
@@ -425,6 +529,19 @@ def run_case(args):
         snap = snapshot(box)
         out["snap"] = {k: (v.hex() if isinstance(v, bytes) else v) for k, v in snap.items()} if want.get("snap") else None
         out["_snap"] = snap
+        if want.get("session") and scen.kw.get("session"):
+            # the session(s) that follow the crash: first one that only reads, then (cache) one that updates
+            c2, s1 = forked(_session_child, box, scen.key, "session")
+            if c2 != 0 or s1 is None:
+                return {"machinery": "session child failed"}
+            out["later"] = [s1]
+            out["_snap1"] = snapshot(box)
+            if scen.kw.get("session2"):
+                c3, s2 = forked(_session_child, box, scen.key, "session2")
+                if c3 != 0 or s2 is None:
+                    return {"machinery": "second session child failed"}
+                out["later"].append(s2)
+                out["_snap2"] = snapshot(box)
         if want.get("observe"):
             c2, obs = forked(_child_observe, box)
             if c2 != 0:
@@ -460,6 +577,8 @@ def mode_key(mode):
 def script_kind(mode):
     if mode.get("reader"):
         return "reader"
+    if mode.get("session_at") is not None:
+        return "reader-session"
     nf = len(mode.get("faults") or {})
     if mode.get("crash_at"):
         return ("torn" if mode.get("torn") else "crash") + ("+fail" if nf else "")
@@ -468,8 +587,8 @@ def script_kind(mode):
 
 # ---------------------------------------------------------------------------------------------------
 # TLC side
-def consts(scns, maxf, doc="atomic", sp="atomic", K=3, reader=False, fixed=False):
-    return {"Scenarios": tlc.lit(set(scns)), "MaxFaults": maxf, "Errnos": tlc.lit(set(ERRNOS)), "DocProto": tlc.lit(doc),
+def consts(scns, maxf, doc="atomic", sp="atomic", K=3, reader=False, fixed=False, rproto="plain"):
+    return {"ReaderProto": tlc.lit(rproto), "Scenarios": tlc.lit(set(scns)), "MaxFaults": maxf, "Errnos": tlc.lit(set(ERRNOS)), "DocProto": tlc.lit(doc),
             "SpProto": tlc.lit(sp), "CacheChunks": K, "WithReader": tlc.lit(reader), "FixedCloneCleanup": tlc.lit(fixed)}
 
 
@@ -580,7 +699,31 @@ def _P(box):
 def c10_scenarios(thorough=True):
     S = []
 
+    # the signac session that observes the target through the library's API (fresh Project, own process)
+    def sess_jobdoc(box):
+        return _P(box).open_job(SP["A"]).document()
+
+    def sess_pdoc(box):
+        return _P(box).document()
+
+    def sess_cache(box):
+        p = _P(box)
+        job = p.open_job(id=ID["O"])  # by id: served from the persistent cache when it can be read
+        return {"sp": job.statepoint(), "len": len(p), "ids": sorted(j.id for j in p), "find": len(p.find_jobs({"a": 5}))}
+
+    def sess_cache_update(box):
+        p = _P(box)
+        p.update_cache()
+        return {"sp": _P(box).open_job(id=ID["A"]).statepoint(), "len": len(p)}
+
     def add(spec, variant, build, setup, targets, tokens, configs=("default", "nomt"), **kw):
+        if spec.startswith("w_cache"):
+            kw.setdefault("session", sess_cache)
+            kw.setdefault("session2", sess_cache_update)
+        elif spec == "w_pdoc":
+            kw.setdefault("session", sess_pdoc)
+        else:
+            kw.setdefault("session", sess_jobdoc)
         for cfgname in configs:
             S.append(Scen(spec, variant, build, setup, config=cfgname, targets=targets, tokens=tokens, **kw))
 
@@ -711,6 +854,49 @@ def judge_c10(scen, pre, post, mode, res, reader, pre_paths=None):
     return bad
 
 
+def judge_session(scen, what, se, pre, snap_after, pre_paths, mode):
+    """a signac session that reads the target through the API (concurrently, or after the crash): its calls must not raise,
+    and afterwards every target still parses to old or new content, with at most the one temp file as litter"""
+    bad = []
+    tag = "session" if what.startswith("concurrent") else "later-session"
+    if se["res"] == "MACHINERY":
+        raise core.MachineryError("%s: %s" % (scen.key, se["detail"]))
+    if se["res"] != "ok":
+        bad.append((tag + "-raised", "the %s raised %s (%s)" % (what, se["res"], se["detail"][:160])))
+    for rel, st in sorted(se["targets_after"].items()):
+        if st not in ("old", "new"):
+            bad.append((tag + "-left-target-" + st, "after the %s %s is %s" % (what, rel, st)))
+    if snap_after is not None and not what.startswith("concurrent"):
+        tdirs = {os.path.dirname(t[0]) for t in scen.kw["targets"]}
+        trel = {t[0] for t in scen.kw["targets"]}
+        extra = [k for k in snap_after if k not in pre and k not in trel and k not in (pre_paths or ())]
+        if len(extra) > 1 or (extra and (extra[0].endswith("/") or os.path.dirname(extra[0]) not in tdirs)):
+            bad.append((tag + "-litter", "after the %s the stray files are %s" % (what, extra)))
+    return bad
+
+
+def reader_events(scen, se):
+    """the recorded steps of a reader session as LifecycleTrace events: open-for-reading of the target (ropen) followed by the
+    read the session survives or not (rread); anything else the reader did (a mutating step, an open of the temp name) is an
+    rstep, which no action of the specification matches"""
+    rt = to_role(scen.kw["targets"][-1][0])
+    out = []
+    for e in se["events"]:
+        roles = [to_role(p) for p in e["paths"]]
+        a = list(roles[0]) if roles and roles[0] else ["?none"]
+        b = list(roles[1]) if len(roles) > 1 and roles[1] else []
+        base = {"k": 0, "a": a, "b": b, "e": "", "p": "none", "n": 0}
+        if not e["mut"] and roles and roles[0] == rt:
+            out.append(dict(base, kind="ropen", op="openr", out="ok" if e["res"] == "ok" else e["res"]))
+            if e["res"] == "ok":
+                out.append(dict(base, kind="rread", op="readall", out="ok" if se["res"] == "ok" else "raised"))
+        elif e["mut"]:
+            out.append(dict(base, kind="rstep", op=OPMAP.get(e["op"], e["op"]), out=e["res"]))
+        else:
+            out.append(dict(base, kind="rstep", op="openr", out=e["res"]))
+    return out
+
+
 def record_and_enumerate(ctx, scens, nprocs):
     """record every scenario once; returns {key: record result}"""
     work = os.path.realpath(ctx.mkdtemp("runs"))
@@ -744,7 +930,7 @@ def run(ctx):
         ctx.notes.append("cache writes use different chunk counts %s; TLC runs use %d, the others are enumerated generically" % (ks, K))
     # ---- TLC: the requirements on the specification ------------------------------------------------
     dump = os.path.join(ctx.work, "c10graph")
-    inv = ["OldOrNew", "NeverTornOrEmpty", "LitterOnlyTmp"]
+    inv = ["OldOrNew", "NeverTornOrEmpty", "LitterOnlyTmp", "WriterCompletes"]
     r = tlc.run("lifecycle/Lifecycle.tla", cfg_text=tlc.cfg(consts(ALL_W, 0, K=K, reader=True), invariants=inv), workdir=ctx.work,
                 workers=nprocs, dump=dump, coverage=False, allow_violation=False)
     ctx.add_tlc("Lifecycle write protocols: crash in every state + concurrent reader (K=%d)" % K, r)
@@ -765,6 +951,14 @@ def run(ctx):
     if not ri2.violation:
         raise core.MachineryError("TLC did not find the torn cache on the in-place protocol")
     ctx.cov["inplace_counterexample"] = [st.get("last") for _, st in ri.violation["trace"]][-3:]
+    # the reader is a signac session with a protocol of its own: the NAMED BROKEN reader ("recover": rename the writer's temp file
+    # over a missing target before reading) MUST violate OldOrNew - for a concurrent reader and for the session after a crash
+    ri3 = tlc.run("lifecycle/Lifecycle.tla", cfg_text=tlc.cfg(consts(["w_cache_new"], 0, K=K, reader=True, rproto="recover"), invariants=["OldOrNew"]),
+                  workdir=ctx.work, workers=1, coverage=False, allow_violation=True)
+    ctx.add_tlc("named broken reader protocol (recover the temp file): violation required", ri3)
+    if not ri3.violation or ri3.violation["name"] != "OldOrNew":
+        raise core.MachineryError("TLC did not find the OldOrNew violation for the temp-file-recovering reader: the reader model is vacuous")
+    ctx.cov["recovering_reader_counterexample"] = [st.get("last", {}).get("op") for _, st in ri3.violation["trace"]]
     terms, ops = terminal_states(dump + ".dot")
     if not {"opent", "write", "close", "rename", "crash", "ret"} <= ops:
         raise core.MachineryError("vacuous model: step kinds never taken: %s" % sorted({"opent", "write", "close", "rename", "crash", "ret"} - ops))
@@ -797,11 +991,14 @@ def run(ctx):
                 for p in PREFIX_CLASSES:
                     if eff_class(prefix_len(p, e["n"] or 0), e["n"] or 0) == p:
                         add({"crash_at": e["k"], "torn": p}, "generic")
+        tlc_pos = {t["rAt"][0] for t in by_scn.get(s.spec, []) if t.get("rpc") == "done" and not t.get("crashed") and t.get("pc") == "done"}
+        for i in range(0, n + 1):  # a signac session in another process between writer steps i and i+1
+            add({"session_at": i}, "tlc" if i in tlc_pos else "generic")
         for i in range(0, n + 1):
             js = range(i, n + 1) if (not ctx.quick or n <= 6) else sorted({i, min(i + 1, n), n, rnd.randrange(i, n + 1)})
             for j in js:
                 add({"reader": {"i": i, "j": j, "target": s.kw["targets"][-1][0]}}, "generic")
-    jobs = [(template(ctx, s), work, s.key, m, {"observe": False}) for s, m, _ in cases]
+    jobs = [(template(ctx, s), work, s.key, m, {"observe": False, "session": bool(m.get("crash_at"))}) for s, m, _ in cases]
     results = core.pmap(run_case, jobs, procs=nprocs)
     # ---- judge + collect traces ------------------------------------------------------------------------
     traces, tmeta = [], []
@@ -818,10 +1015,17 @@ def run(ctx):
             ctx.count(("untriggered", s.key, mode_key(mode)))
             return
         bad = judge_c10(s, pre_snaps[s.key], post, mode, out["res"], out.get("reader"), out.get("pre_paths"))
+        sessions = ([("concurrent session", out["session"], post)] if out.get("session") else []) + \
+                   [("session after the crash" if n == 0 else "updating session after the crash", x, out.get("_snap1" if n == 0 else "_snap2"))
+                    for n, x in enumerate(out.get("later") or [])]
+        for what, se, snap_after in sessions:
+            bad += judge_session(s, what, se, pre_snaps[s.key], snap_after, out.get("pre_paths"), mode)
+        if mode.get("session_at") is not None and out["res"] != "ok":
+            ctx.notes.append("%s: the writer raised %s with a reader session at position %s" % (s.key, out["res"], mode["session_at"])) if len(ctx.notes) < 20 else None
         stepop = ""
         if mode.get("crash_at") and out["events"]:
             stepop = OPMAP.get(out["events"][-1]["op"], out["events"][-1]["op"])
-        ctx.count((s.spec, s.variant, s.config, kind, mode.get("crash_at"), mode.get("torn"), json.dumps(mode.get("reader"))), traces=1)
+        ctx.count((s.spec, s.variant, s.config, kind, mode.get("crash_at"), mode.get("torn"), json.dumps(mode.get("reader")), mode.get("session_at")), traces=1)
         for cond, text in bad:
             nviol += 1
             sig = "%s:%s:%s:%s" % (s.kw.get("sigop", s.spec.split("_")[1]), s.config, kind.split("+")[0], cond)
@@ -829,7 +1033,15 @@ def run(ctx):
                           {"scenario": s.key, "mode": mode})
         if not mode.get("reader"):
             tk = tokens_of(s)
-            traces.append({"scn": s.spec, "ev": spec_events(out["events"]), "res": out["res"], "disk": abstract_disk(post, tk), "rep": []})
+            evs = spec_events(out["events"])
+            final = post
+            if out.get("session"):  # the reader's steps go where they happened: after the writer's step session_at
+                i = mode["session_at"]
+                evs = [e for e in evs if e["k"] <= i] + reader_events(s, out["session"]) + [e for e in evs if e["k"] > i]
+            elif out.get("later"):
+                evs = evs + reader_events(s, out["later"][0])
+                final = out["_snap1"]
+            traces.append({"scn": s.spec, "ev": evs, "res": out["res"], "disk": abstract_disk(final, tk), "rep": []})
             tmeta.append((s, mode, bool(bad)))
 
     for s in scens:
@@ -843,7 +1055,7 @@ def run(ctx):
         groups.setdefault(("atomic", kk), []).append(i)
     nrej = 0
     for (proto, kk), idx in sorted(groups.items()):
-        rej, diag = validate_traces(ctx, "C10 %s K=%d" % (proto, kk), [traces[i] for i in idx], consts(ALL_W, 1, K=kk))
+        rej, diag = validate_traces(ctx, "C10 %s K=%d" % (proto, kk), [traces[i] for i in idx], consts(ALL_W, 1, K=kk, reader=True))
         for j in sorted(rej):
             s, mode, wasbad = tmeta[idx[j]]
             nrej += 1
@@ -997,15 +1209,26 @@ def replay(ctx, data):
         print("unknown scenario", data["scenario"])
         return 2
     s = scen[0]
+    mode = data["mode"]
     work = os.path.realpath(ctx.mkdtemp("replay"))
-    out = run_case((template(ctx, s), work, s, data["mode"], {}))
+    out = run_case((template(ctx, s), work, s, mode, {"session": bool(mode.get("crash_at"))}))
+    if "machinery" in out:
+        print("machinery:", out["machinery"])
+        return 2
     pre = snapshot(template(ctx, s))
-    bad = judge_c10(s, pre, out["_snap"], data["mode"], out["res"], out.get("reader"), out.get("pre_paths"))
-    print("scenario", s.key, "mode", data["mode"], "result", out["res"])
+    bad = judge_c10(s, pre, out["_snap"], mode, out["res"], out.get("reader"), out.get("pre_paths"))
+    sessions = ([("concurrent session", out["session"], out["_snap"])] if out.get("session") else []) + \
+               [("session after the crash" if n == 0 else "updating session after the crash", x, out.get("_snap1" if n == 0 else "_snap2"))
+                for n, x in enumerate(out.get("later") or [])]
+    print("scenario", s.key, "mode", mode, "result", out["res"])
     for e in out["events"]:
         print("   step", e["k"], e["op"], e["paths"], e["n"], e["res"])
     for t in s.kw["targets"]:
         print("   target", t[0], "->", parse_target(out["_snap"].get(t[0]), t[3])[0])
+    for what, se, snap_after in sessions:
+        print("   %s: %s %s; its steps: %s; targets afterwards: %s" % (what, se["res"], se["detail"][:120],
+              [(e["op"], e["paths"], e["res"]) for e in se["events"]], se["targets_after"]))
+        bad += judge_session(s, what, se, pre, snap_after, out.get("pre_paths"), mode)
     for cond, text in bad:
         print("   VIOLATED:", cond, text)
     return 1 if bad else 0
